@@ -281,6 +281,40 @@ func runC20(c *core.Ctx, o Options) {
 					if nStart == 0 {
 						okDom = false
 					}
+				} else if logonFn != nil && !an.KnownFuncs[fn.String()] && onlyCalledUnder(fn, logonFn, fns, 0) {
+					// the store lives in a helper that only the Logon handler runs: on the handler's interprocedural paths it
+					// comes before start() and start() can follow it
+					xp, _ := an.EnumPathsX(logonFn, 4096)
+					nPass, nStart := 0, 0
+					okDom = true
+					for _, p := range xp {
+						seenStore, startBefore, startAfter := false, false, false
+						for _, i2 := range p.InstrSeq() {
+							if i2 == ssa.Instruction(st) {
+								seenStore = true
+							}
+							if call, ok := i2.(*ssa.Call); ok && an.CalleeIs(&call.Call, "session", "Session.start") {
+								if seenStore {
+									startAfter = true
+								} else {
+									startBefore = true
+								}
+							}
+						}
+						if !seenStore {
+							continue
+						}
+						nPass++
+						if startBefore {
+							okDom = false
+						}
+						if startAfter {
+							nStart++
+						}
+					}
+					if nPass == 0 || nStart == 0 {
+						okDom = false
+					}
 				}
 				if okDom {
 					ob.Ok("written by the Logon handler before start(): the timer goroutines are created afterwards, senders are ordered by the logon exchange")
@@ -422,9 +456,18 @@ func fieldOwner(f *types.Var) string {
 }
 
 func isLocalStruct(v ssa.Value) bool {
-	// a struct value living in a local variable (e.g. errgroup.Group{}, a state literal)
-	al, ok := v.(*ssa.Alloc)
-	return ok && !al.Heap
+	// a struct value living in a local variable (e.g. errgroup.Group{}, a state literal), or an element of a local array /
+	// of a literal that is being built (a table of struct values)
+	switch x := v.(type) {
+	case *ssa.Alloc:
+		return !x.Heap || an.IsConstructorBase(x, x.Parent())
+	case *ssa.IndexAddr:
+		if al, ok := x.X.(*ssa.Alloc); ok {
+			_ = al
+			return true
+		}
+	}
+	return false
 }
 
 func countStores(fn *ssa.Function) int {
@@ -523,4 +566,35 @@ func closureEscapesToOtherGoroutine(mc *ssa.MakeClosure) bool {
 		}
 	}
 	return false
+}
+
+// onlyCalledUnder: every use of fn in the library is a direct call from root or from functions that are themselves only called under root.
+func onlyCalledUnder(fn, root *ssa.Function, fns []*ssa.Function, depth int) bool {
+	if depth > 3 {
+		return false
+	}
+	n := 0
+	ok := true
+	for _, caller := range fns {
+		an.AllInstrs(caller, func(in ssa.Instruction) {
+			cc := an.CallOf(in)
+			for _, op := range in.Operands(nil) {
+				if op != nil && *op == ssa.Value(fn) && (cc == nil || cc.Value != ssa.Value(fn)) {
+					ok = false // used as a value
+				}
+			}
+			if cc == nil || an.StaticCallee(cc) != fn {
+				return
+			}
+			if _, isCall := in.(*ssa.Call); !isCall {
+				ok = false // deferred or spawned
+				return
+			}
+			n++
+			if caller != root && !onlyCalledUnder(caller, root, fns, depth+1) {
+				ok = false
+			}
+		})
+	}
+	return ok && n > 0
 }
